@@ -39,6 +39,12 @@ type Prosumer struct {
 		polling bool
 		again   bool
 	}
+	// queue: the batches that have arrived and wait for their callbacks
+	queue struct {
+		sync.Mutex
+		batches []map[string][]Message
+		running bool
+	}
 }
 
 type prosumer struct {
@@ -114,6 +120,34 @@ func (p *Prosumer) dispatch(topics map[string][]Message) {
 	}
 }
 
+// enqueue hands a batch to the dispatching goroutine, which it starts if none is running.
+func (p *Prosumer) enqueue(topics map[string][]Message) {
+	p.queue.Lock()
+	p.queue.batches = append(p.queue.batches, topics)
+	if !p.queue.running {
+		p.queue.running = true
+		go p.drain()
+	}
+	p.queue.Unlock()
+}
+
+// drain dispatches the queued batches in the order they arrived and ends when none is left.
+func (p *Prosumer) drain() {
+	for {
+		p.queue.Lock()
+		if len(p.queue.batches) == 0 {
+			p.queue.running = false
+			p.queue.Unlock()
+			return
+		}
+		topics := p.queue.batches[0]
+		p.queue.batches[0] = nil
+		p.queue.batches = p.queue.batches[1:]
+		p.queue.Unlock()
+		p.dispatch(topics)
+	}
+}
+
 func (p *Prosumer) call(callback Callback, message Message) {
 	switch callback := callback.(type) {
 	case func(Message):
@@ -167,9 +201,11 @@ func (p *Prosumer) message() {
 			if topics == nil {
 				return
 			}
-			// dispatch in the polling goroutine: one goroutine per batch would let the
-			// callbacks of a later batch overtake those of an earlier one.
-			p.dispatch(topics)
+			// the batches are dispatched one after the other (one goroutine per batch would
+			// let the callbacks of a later batch overtake those of an earlier one), but not
+			// by the polling goroutine: while a slow callback runs nobody would poll, and
+			// the broker takes a client that does not poll within its heartbeat offline
+			p.enqueue(topics)
 		}
 		for err != nil {
 			if !core.IsTimeoutError(err) {
